@@ -121,6 +121,27 @@ Proof. split; [|split]; intros; contradiction. Qed.
 Lemma dlink_clear s k : dlink s [] [k] [] [k].
 Proof. split; [|split]; intros; try contradiction. left; assumption. Qed.
 
+(* nodes popped by a loop started at the roots RD lie below RD.  Stated negatively (reach is not decided): a node
+   that no root holds below it is not popped.  A popped node that no root reaches has a popped parent with the same
+   defect, so such nodes would have chains of any length below them - rank_depth forbids that. *)
+Lemma dlink_not_above s RD D a :
+  Rank s -> (forall d, In d D -> In d RD \/ kid_of s D d) -> (forall r, In r RD -> ~ reach s r a) -> ~ In a D.
+Proof.
+  intros HK LA Hno.
+  set (Bad := fun d => In d D /\ forall r, In r RD -> ~ reach s r d).
+  assert (Hup : forall d, Bad d -> exists d', Bad d' /\ In d (skids s d')).
+  { intros d [Hd Hn]. destruct (LA d Hd) as [Hin|[d' [Hd' Hk]]]; [exfalso; apply (Hn d Hin); apply reach_refl|].
+    exists d'. split; [|exact Hk]. split; [exact Hd'|]. intros r Hr Hc. apply (Hn r Hr).
+    eapply reach_trans; [exact Hc | eapply reach_step; [exact Hk | apply reach_refl]]. }
+  assert (Hdeep : forall m d, Bad d -> exists d', Bad d' /\ ~ depth_le s m d').
+  { induction m; intros d Hb.
+    - destruct (Hup d Hb) as [d' [Hb' Hk]]. exists d'. split; [exact Hb'|]. simpl. intros Hd. exact (Hd d Hk).
+    - destruct (IHm d Hb) as [d1 [Hb1 Hn1]]. destruct (Hup d1 Hb1) as [d2 [Hb2 Hk]].
+      exists d2. split; [exact Hb2|]. simpl. intros Hd. apply Hn1. apply Hd. exact Hk. }
+  intros Ha. destruct (Hdeep (List.length (heap s)) a (conj Ha Hno)) as [d' [_ Hn]].
+  apply Hn. apply rank_depth. exact HK.
+Qed.
+
 (* ---------- what detach does ---------- *)
 Definition det_node_spec (s : st) (a : nat) (s1 : st) : Prop :=
   exists D C, det_rel s s1 D C /\ dlink s [a] [] D C /\ (D = [] \/ parent s a = None).
@@ -240,7 +261,7 @@ Section DetInv.
     split; [|split; [|split]].
     - intros i x Hx. apply (dr_sub _ _ _ _ R) in Hx. destruct (HR _ _ Hx) as [Hl Hi].
       split; [apply (pf_live _ _ PF); exact Hl | rewrite (pf_id _ _ PF); exact Hi].
-    - intros x k Hk. rewrite (pf_skids _ _ PF) in Hk. apply HK; exact Hk.
+    - eapply rank_same_kids; [apply (pf_len _ _ PF) | intros b; apply (pf_skids _ _ PF) | exact HK].
     - intros x Hx.
       destruct (dr_either _ _ _ _ R x) as [E|E]; rewrite E in Hx; [|simpl in Hx; congruence].
       destruct (HP x Hx) as [Hxa Hxp]. destruct (parent s x) as [p|] eqn:Hp; [|congruence].
